@@ -216,7 +216,7 @@ fn parse_queue(q: &str) -> Option<Vec<FileSpec>> { q.split('#').map(parse_file).
 
 // -------------------------------------------------------------- real run
 
-type Entry = (u32, char, String);   // ingress id, A|W, attribute id ("?" when the stored blob has no MED)
+type Entry = (u32, char, String, bool);   // ingress id, A|W, attribute id ("?" when the stored blob has no MED), attribute map tagged 4-octet-AS
 
 struct RunObs {
     updates: usize, singles: usize, bulks: usize, withdraws: usize,
@@ -270,10 +270,10 @@ fn run_rib(updates: Vec<Update>) -> (Vec<(Vec<Entry>, Vec<Entry>)>, Option<Strin
         let mut v: Vec<Entry> = match r {
             Ok(Ok(res)) => res.prefix_meta.iter().map(|r| {
                 let st = match r.status { RouteStatus::Active => 'A', RouteStatus::Withdrawn => 'W', _ => 'I' };
-                (r.multi_uniq_id, st, med_of(&r.meta.0.clone().into_vec()).map(|a| a.to_string()).unwrap_or_else(|| "?".into()))
+                (r.multi_uniq_id, st, med_of(&r.meta.0.clone().into_vec()).map(|a| a.to_string()).unwrap_or_else(|| "?".into()), r.meta.0.pdu_parse_info().four_octet_enabled())
             }).collect(),
-            Ok(Err(_)) => vec![(0, 'E', "err".into())],
-            Err(_) => vec![(0, 'P', "panic".into())],
+            Ok(Err(_)) => vec![(0, 'E', "err".into(), true)],
+            Err(_) => vec![(0, 'P', "panic".into(), true)],
         };
         v.sort();
         v
@@ -295,7 +295,7 @@ fn canon_id(infos: &[(u32, IngressInfo)], id: u32) -> u32 {
     infos.iter().filter(|(i, _)| peer_of(infos, *i).as_ref() == Some(&me)).map(|(i, _)| *i).min().unwrap_or(id)
 }
 fn show_entries(es: &[Entry], infos: &[(u32, IngressInfo)]) -> String {
-    let mut v: Vec<(u32, char, String)> = es.iter().map(|(m, s, a)| (canon_id(infos, *m), *s, a.clone())).collect();
+    let mut v: Vec<(u32, char, String)> = es.iter().map(|(m, s, a, _)| (canon_id(infos, *m), *s, a.clone())).collect();
     v.sort();
     join(v.iter().map(|(m, s, a)| format!("c{m}.{s}.{a}")), ",")
 }
@@ -312,7 +312,7 @@ fn show_obs(o: &RunObs) -> String {
 
 /// What one record contributes, in the order the importer applies things: the dump entries of the file, then its BGP4MP records.
 #[derive(Clone, Debug)]
-enum Tok { S { key: usize, idx: usize, attrs: u8 }, B { peer: Peer, keys_ann: Vec<usize>, keys_wd: Vec<usize>, attrs: u8 }, W { peer: Peer } }
+enum Tok { S { key: usize, idx: usize, attrs: u8 }, B { peer: Peer, keys_ann: Vec<usize>, keys_wd: Vec<usize>, keys_wd_raw: Vec<usize>, attrs: u8, as4: bool }, W { peer: Peer } }
 
 fn key_of(v6: bool, i: usize) -> usize { if v6 { PFX4.len() + i } else { i } }
 
@@ -337,9 +337,9 @@ fn tokens(f: &FileSpec) -> Vec<Tok> {
     }
     for r in &f.recs {
         match r {
-            Rec::Msg { peer, bgp: Bgp::Update { v6, ann, wd, attrs }, .. } => {
+            Rec::Msg { as4, peer, bgp: Bgp::Update { v6, ann, wd, attrs } } => {
                 // RFC 4271 4.3: read as though the withdrawn routes did not contain a prefix the UPDATE also announces
-                t.push(Tok::B { peer: peer.clone(), keys_ann: ann.iter().map(|i| key_of(*v6, *i)).collect(), keys_wd: wd.iter().filter(|i| !ann.contains(i)).map(|i| key_of(*v6, *i)).collect(), attrs: *attrs });
+                t.push(Tok::B { peer: peer.clone(), keys_ann: ann.iter().map(|i| key_of(*v6, *i)).collect(), keys_wd: wd.iter().filter(|i| !ann.contains(i)).map(|i| key_of(*v6, *i)).collect(), keys_wd_raw: wd.iter().map(|i| key_of(*v6, *i)).collect(), attrs: *attrs, as4: *as4 });
             }
             Rec::State { peer, old: 6, new: 1, .. } => t.push(Tok::W { peer: peer.clone() }),
             _ => {}
@@ -355,27 +355,33 @@ struct Sem {
     sticky: bool,
     /// every dump registers its peers again: a peer named by two peer index tables has two ingress ids
     dup: bool,
+    /// no state change ever withdraws anything (C16's fixed finding: the lookup without the parent id)
+    no_sc: bool,
+    /// a prefix that one UPDATE both withdraws and announces ends withdrawn (C01/C16's fixed overlap finding)
+    overlap: bool,
 }
+impl Sem { const STRICT: Sem = Sem { sticky: false, dup: false, no_sc: false, overlap: false }; }
 
 /// The expected RIB: per (prefix key, registration instance) → (status, attrs). An instance belongs to one peer; the
 /// property's reading has one instance per peer (`dup = false`).
 #[derive(Clone, Default)]
-struct World { inst: Vec<Peer>, tab: BTreeMap<(usize, usize), (char, u8)>, down: HashSet<usize> }
+struct World { inst: Vec<Peer>, tab: BTreeMap<(usize, usize), (char, u8, bool)>, down: HashSet<usize> }
 impl World {
     fn of_peer(&self, p: &Peer) -> Vec<usize> { (0..self.inst.len()).filter(|i| self.inst[*i] == *p).collect() }
-    fn view(&self) -> Vec<Vec<(Peer, char, u8)>> {
+    /// per prefix the sorted (peer, status, attrs, written with 4-octet AS numbers); `width = false` blanks the last field
+    fn view(&self, width: bool) -> Vec<Vec<(Peer, char, u8, bool)>> {
         let mut v = vec![vec![]; PFX4.len() + PFX6.len()];
-        for ((k, i), (st, a)) in &self.tab { v[*k].push((self.inst[*i].clone(), if self.down.contains(i) { 'W' } else { *st }, *a)); }
+        for ((k, i), (st, a, as4)) in &self.tab { v[*k].push((self.inst[*i].clone(), if self.down.contains(i) { 'W' } else { *st }, *a, *as4 || !width)); }
         for l in v.iter_mut() { l.sort(); }
         v
     }
 }
 /// All worlds reachable by importing `files[k..]`: a good file completely, another readable one up to any cut, a lookup that
 /// finds several instances of the peer answering any of them. Stops at the first world equal to `want`.
-fn explain(files: &[(FileSpec, bool, Vec<Tok>)], k: usize, w: World, sem: Sem, want: &Vec<Vec<(Peer, char, u8)>>, budget: &mut u32) -> bool {
-    if *budget == 0 { return false; }
+fn explain(files: &[(FileSpec, bool, Vec<Tok>)], k: usize, w: World, sem: Sem, want: &Vec<Vec<(Peer, char, u8, bool)>>, budget: &mut u32) -> Option<World> {
+    if *budget == 0 { return None; }
     *budget -= 1;
-    if k == files.len() { return w.view() == *want; }
+    if k == files.len() { return if w.view(false) == *want { Some(w) } else { None }; }
     let (f, good, toks) = &files[k];
     if !readable(f) { return explain(files, k + 1, w, sem, want, budget); }
     let mut w = w;
@@ -386,34 +392,35 @@ fn explain(files: &[(FileSpec, bool, Vec<Tok>)], k: usize, w: World, sem: Sem, w
             if sem.dup || have.is_empty() { w.inst.push(p.clone()); map.push(w.inst.len() - 1); } else { map.push(have[0]); }
         }
     }
-    fn walk(files: &[(FileSpec, bool, Vec<Tok>)], k: usize, toks: &[Tok], ti: usize, good: bool, map: &[usize], w: World, sem: Sem, want: &Vec<Vec<(Peer, char, u8)>>, budget: &mut u32) -> bool {
-        if (!good || ti == toks.len()) && explain(files, k + 1, w.clone(), sem, want, budget) { return true; }
-        if ti == toks.len() || *budget == 0 { return false; }
+    fn walk(files: &[(FileSpec, bool, Vec<Tok>)], k: usize, toks: &[Tok], ti: usize, good: bool, map: &[usize], w: World, sem: Sem, want: &Vec<Vec<(Peer, char, u8, bool)>>, budget: &mut u32) -> Option<World> {
+        if !good || ti == toks.len() { if let Some(x) = explain(files, k + 1, w.clone(), sem, want, budget) { return Some(x); } }
+        if ti == toks.len() || *budget == 0 { return None; }
         match &toks[ti] {
-            Tok::S { key, idx, attrs } => { let mut w = w; w.tab.insert((*key, map[*idx]), ('A', *attrs)); walk(files, k, toks, ti + 1, good, map, w, sem, want, budget) }
-            Tok::B { peer, keys_ann, keys_wd, attrs } => {
+            Tok::S { key, idx, attrs } => { let mut w = w; w.tab.insert((*key, map[*idx]), ('A', *attrs, true)); walk(files, k, toks, ti + 1, good, map, w, sem, want, budget) }
+            Tok::B { peer, keys_ann, keys_wd, keys_wd_raw, attrs, as4 } => {
+                let keys_wd = if sem.overlap { keys_wd_raw } else { keys_wd };
                 let mut cands = w.of_peer(peer);
                 let mut w = w;
                 if cands.is_empty() { w.inst.push(peer.clone()); cands.push(w.inst.len() - 1); }
                 for c in cands {
                     let mut w2 = w.clone();
-                    for key in keys_ann { w2.tab.insert((*key, c), ('A', *attrs)); }
+                    for key in keys_ann { w2.tab.insert((*key, c), ('A', *attrs, *as4)); }
                     for key in keys_wd { if let Some(e) = w2.tab.get_mut(&(*key, c)) { e.0 = 'W'; } }
-                    if walk(files, k, toks, ti + 1, good, map, w2, sem, want, budget) { return true; }
+                    if let Some(x) = walk(files, k, toks, ti + 1, good, map, w2, sem, want, budget) { return Some(x); }
                 }
-                false
+                None
             }
             Tok::W { peer } => {
                 let cands = w.of_peer(peer);
-                if cands.is_empty() { return walk(files, k, toks, ti + 1, good, map, w, sem, want, budget); }
+                if cands.is_empty() || sem.no_sc { return walk(files, k, toks, ti + 1, good, map, w, sem, want, budget); }
                 // the property's reading: the state change withdraws *that peer's* routes, i.e. those of every instance
                 let choices: Vec<Vec<usize>> = if sem.dup { cands.iter().map(|c| vec![*c]).collect() } else { vec![cands] };
                 for ch in choices {
                     let mut w2 = w.clone();
                     for c in ch { for ((_, i), e) in w2.tab.iter_mut() { if *i == c { e.0 = 'W'; } } if sem.sticky { w2.down.insert(c); } }
-                    if walk(files, k, toks, ti + 1, good, map, w2, sem, want, budget) { return true; }
+                    if let Some(x) = walk(files, k, toks, ti + 1, good, map, w2, sem, want, budget) { return Some(x); }
                 }
-                false
+                None
             }
         }
     }
@@ -427,32 +434,51 @@ fn oracle(files: &[FileSpec], o: &RunObs) -> String {
         return format!("fail mrt-in:panic-in-file-kills-queue-consumer file {k} of the queue panicked inside process_file: the only consumer task is gone, {} later file(s) never reached the RIB, every future enqueue unanswered", files.len() - k - 1);
     }
     // the observed RIB by peer (through the real register: the id's entry must be a peer of this unit)
-    let mut got: Vec<Vec<(Peer, char, u8)>> = vec![];
+    let mut got: Vec<Vec<(Peer, char, u8, bool)>> = vec![];
+    let mut got_w: Vec<Vec<(Peer, char, u8, bool)>> = vec![];
     for (k, (t, _)) in o.rib.iter().enumerate() {
         let mut l = vec![];
-        for (id, st, a) in t {
+        let mut lw = vec![];
+        for (id, st, a, four) in t {
             let Some((Some(1), p)) = peer_of(&o.infos, *id) else { return format!("fail mrt-rib:entry-of-unknown-ingress prefix {} holds an entry of ingress id {id}, which the register does not know as a peer of this unit", key_name(k)); };
             let Ok(a) = a.parse::<u8>() else { return format!("fail mrt-rib:attributes-lost prefix {} ingress {id}: stored attribute blob does not carry the written MED", key_name(k)); };
-            l.push((p, *st, a));
+            l.push((p.clone(), *st, a, true));
+            lw.push((p, *st, a, *four));
         }
-        l.sort();
-        got.push(l);
+        l.sort(); lw.sort();
+        got.push(l); got_w.push(lw);
     }
     // include_withdrawn = false must be exactly the active part of the full answer
     for (k, (t, f)) in o.rib.iter().enumerate() {
-        let act: Vec<&Entry> = t.iter().filter(|e| e.1 == 'A').collect();
-        if act != f.iter().collect::<Vec<_>>() { return format!("fail mrt-rib:active-view-differs prefix {}: the answer without withdrawn routes is not the active part of the answer with them", key_name(k)); }
+        let act: Vec<(u32, char, &String)> = t.iter().filter(|e| e.1 == 'A').map(|e| (e.0, e.1, &e.2)).collect();
+        if act != f.iter().map(|e| (e.0, e.1, &e.2)).collect::<Vec<_>>() { return format!("fail mrt-rib:active-view-differs prefix {}: the answer without withdrawn routes is not the active part of the answer with them", key_name(k)); }
     }
     let fl: Vec<(FileSpec, bool, Vec<Tok>)> = files.iter().map(|f| (f.clone(), file_is_good(f), tokens(f))).collect();
-    let try_sem = |sem: Sem| -> bool { let mut b = 200_000u32; explain(&fl, 0, World::default(), sem, &got, &mut b) };
-    if try_sem(Sem { sticky: false, dup: false }) { return "ok".into(); }
-    if try_sem(Sem { sticky: true, dup: false }) {
+    let find_sem = |sem: Sem| -> Option<World> { let mut b = 200_000u32; explain(&fl, 0, World::default(), sem, &got, &mut b) };
+    let try_sem = |sem: Sem| -> bool { find_sem(sem).is_some() };
+    if let Some(w) = find_sem(Sem::STRICT) {
+        // the content is right; are the stored attribute maps tagged with the AS-number width they were written with?
+        if w.view(true) != got_w {
+            return "fail mrt:two-octet-as-record-tagged-four-octet the RIB holds routes of BGP4MP_MESSAGE (2-octet AS) records whose attribute maps are tagged 4-octet-AS, so AS_PATH / AGGREGATOR read back wrongly".into();
+        }
+        return "ok".into();
+    }
+    if try_sem(Sem { sticky: true, ..Sem::STRICT }) {
         return "fail flap:global-withdrawn-marker-never-cleared an MRT peer went Established->Idle and announced again later in the queue: the routes it announced after coming back are reported withdrawn".into();
     }
-    if try_sem(Sem { sticky: false, dup: true }) || try_sem(Sem { sticky: true, dup: true }) {
+    if try_sem(Sem { dup: true, ..Sem::STRICT }) || try_sem(Sem { sticky: true, dup: true, ..Sem::STRICT }) {
         return "fail mrt-in:dump-registers-known-peer-again a peer named by two peer index tables of the queue (or already known from its messages) has two ingress ids: the RIB holds two entries for one peer and prefix, and an Established->Idle state change withdraws the routes of one of the ids only".into();
     }
-    let diff = (0..got.len()).find_map(|k| { let s = |l: &Vec<(Peer, char, u8)>| join(l.iter().map(|(p, st, a)| format!("{}.{st}.{a}", show_peer(p))), ","); if got[k].is_empty() { None } else { Some(format!("e.g. {} holds [{}]", key_name(k), s(&got[k]))) } }).unwrap_or_else(|| "the RIB is empty".into());
+    // regressions of defects that are repaired in /repo today keep their signatures
+    for dup in [false, true] { for sticky in [false, true] {
+        if try_sem(Sem { no_sc: true, dup, sticky, overlap: false }) {
+            return "fail mrt-in:state-change-never-withdraws an Established->Idle state change of a peer with imported routes left them active in the RIB".into();
+        }
+        if try_sem(Sem { overlap: true, dup, sticky, no_sc: false }) {
+            return "fail overlap:withdrawal-kept-after-announcement-of-same-update a prefix that one UPDATE of a file both withdraws and announces ended withdrawn in the RIB (RFC 4271 4.3: as though not withdrawn)".into();
+        }
+    } }
+    let diff = (0..got.len()).find_map(|k| { let s = |l: &Vec<(Peer, char, u8, bool)>| join(l.iter().map(|(p, st, a, _)| format!("{}.{st}.{a}", show_peer(p))), ","); if got[k].is_empty() { None } else { Some(format!("e.g. {} holds [{}]", key_name(k), s(&got[k]))) } }).unwrap_or_else(|| "the RIB is empty".into());
     format!("fail mrt-rib:import-mismatch the RIB after the queue is not the files' dump entries and updates applied in order and attributed to the right peers; {diff}")
 }
 
